@@ -23,6 +23,7 @@ import YashModel.Proc.FdLemmas
 import YashModel.Proc.ForkLemmas
 import YashModel.Proc.Flow2
 import YashModel.Proc.Flow3
+import YashModel.Proc.FlowN
 import YashModel.Proc.Order
 import YashModel.Proc.TrapLemmas
 import YashModel.Proc.TrapGlue
@@ -1360,6 +1361,76 @@ example :
     Spec.raceFree3 PCfg.real.cap PCfg.real.chunk 6000 (.st 9) = true ∧
     Spec.raceFree3 PCfg.real.cap PCfg.real.chunk 512 (.take 512 0) = true ∧
     Spec.raceFree3 PCfg.real.cap PCfg.real.chunk 3000 (.take 10 0) = false := by
+  decide
+
+
+
+/-- ★ Pipelines of ANY number of stages (any list of `spew`/`take`/`drain`/`cat`/`st` programs, any capacity, any
+    payload), under EVERY schedule: in every reachable state a stage that has ended has ended with its OWN status (the
+    one its program fixes: `take k st` and `st n` their argument, the others 0) — or it is a writer that is not the
+    last stage and ended with 1 because a `write` failed with EPIPE, and then its reader, the next stage, had ended
+    before it.  (There is no third way: a stage is never killed by SIGPIPE in the shell — the virtual system and the
+    built-ins report EPIPE —, never blocks for good: `pipeline_no_deadlock`.) -/
+theorem flow_stages_end_own_or_epipe (c : PCfg) (progs : List SProg) (hne : progs ≠ []) {s : PSys}
+    (h : PSteps c (mkPipeline progs) s) :
+    ∀ (i : Nat) (st : Stage) (p : SProg) (e : Nat), s.stages[i]? = some st → progs[i]? = some p → st.exit = some e →
+      e = ownStatus p ∨ (e = 1 ∧ isWriter p = true ∧ i + 1 < progs.length ∧ s.alive (i + 1) = false) :=
+  (flowInv_steps h (flowInv_init c progs hne)).ended
+
+/-- ★ Hence the exit status of a pipeline of any length WITHOUT `pipefail` is the same under every schedule: once all
+    stages have ended it is the own status of the last stage (whose standard output is not a pipe: it cannot get
+    EPIPE) — `pipeStatus false` = `Spec.pipe false` of the statuses the run produced.  With `pipefail` the status is
+    the rightmost non-zero of statuses each of which is the stage's own or 1 (a writer whose reader left first): exact
+    in the race-free regimes (`flow2_statuses_exact`, `flow3_statuses_exact`), schedule-dependent outside them — which
+    is the script's race, not the shell's. -/
+theorem flow_pipeline_status_any_stages (c : PCfg) (progs : List SProg) (hne : progs ≠ []) {s : PSys}
+    (h : PSteps c (mkPipeline progs) s) (hd : s.done = true) :
+    pipeStatus false s.statuses = ownStatus (progs.getLast hne) ∧
+    Spec.pipe false s.statuses = ownStatus (progs.getLast hne) ∧
+    (∀ (i : Nat) (p : SProg), progs[i]? = some p →
+      s.statuses[i]? = some (ownStatus p) ∨
+      (s.statuses[i]? = some 1 ∧ isWriter p = true ∧ i + 1 < progs.length)) := by
+  have hI := flowInv_steps h (flowInv_init c progs hne)
+  have hlen := hI.len
+  have hpos : 0 < progs.length := List.length_pos_iff.mpr hne
+  have hall : ∀ (i : Nat) (st : Stage), s.stages[i]? = some st → ∃ e, st.exit = some e := by
+    intro i st hst
+    have := List.all_eq_true.mp hd st (List.mem_of_getElem? hst)
+    cases he : st.exit with
+    | none => simp [he] at this
+    | some e => exact ⟨e, rfl⟩
+  have hstat : ∀ (i : Nat) (st : Stage), s.stages[i]? = some st → s.statuses[i]? = some (st.exit.getD 999) := by
+    intro i st hst; simp [PSys.statuses, hst]
+  have hlast : s.statuses.getLast? = some (ownStatus (progs.getLast hne)) := by
+    have hi : progs.length - 1 < s.stages.length := by omega
+    have hst : s.stages[progs.length - 1]? = some s.stages[progs.length - 1] := List.getElem?_eq_getElem hi
+    have hp : progs[progs.length - 1]? = some (progs.getLast hne) := by
+      rw [List.getLast_eq_getElem]; exact List.getElem?_eq_getElem (by omega)
+    obtain ⟨e, he⟩ := hall _ _ hst
+    have := hI.ended _ _ _ e hst hp he
+    rcases this with h1 | ⟨_, _, h3, _⟩
+    · rw [List.getLast?_eq_getElem?]
+      have hl : s.statuses.length = progs.length := by simp [PSys.statuses, hlen]
+      rw [hl, hstat _ _ hst, he, h1]; rfl
+    · omega
+  have hspec : Spec.pipe false s.statuses = ownStatus (progs.getLast hne) := by
+    simp [Spec.pipe, hlast]
+  refine ⟨by rw [pipefail_rule]; exact hspec, hspec, ?_⟩
+  intro i p hp
+  have hi : i < s.stages.length := by
+    have := lt_of_get hp; omega
+  have hst : s.stages[i]? = some s.stages[i] := List.getElem?_eq_getElem hi
+  obtain ⟨e, he⟩ := hall _ _ hst
+  rcases hI.ended _ _ _ e hst hp he with h1 | ⟨h1, h2, h3, _⟩
+  · left; rw [hstat _ _ hst, he, h1]; rfl
+  · right; exact ⟨by rw [hstat _ _ hst, he, h1]; rfl, h2, h3⟩
+
+/-- what the driver runs for `fp F F …`: whatever `prun` returns for the real constants, if all stages have ended the
+    status without `pipefail` is the last stage's own (a four-stage pipeline no earlier theorem covers) -/
+example :
+    let progs : List SProg := [.idle 5, .spew 3000, .cat 0, .take 10 7]
+    (prun PCfg.real 4000 [1, 0, 2, 1, 3, 0] (mkPipeline progs)).done = true ∧
+    pipeStatus false (prun PCfg.real 4000 [1, 0, 2, 1, 3, 0] (mkPipeline progs)).statuses = 7 := by
   decide
 
 
